@@ -354,12 +354,6 @@ class MarkupTemplate(Template):
                         match_templates[idx] = (_retired,) + \
                                                match_templates[idx][1:]
 
-                    # Let the remaining match templates know about the event so
-                    # they get a chance to update their internal state
-                    remaining = [mt[0] for mt in match_templates[idx + 1:]]
-                    for test in remaining:
-                        test(event, namespaces, ctxt, updateonly=True)
-
                     # Consume and store all events until an end event
                     # corresponding to this start event is encountered
                     pre_end = idx + 1
@@ -402,7 +396,7 @@ class MarkupTemplate(Template):
                     # Let every match template that has seen the start event
                     # know about the last event in the matched content, so
                     # they can update their internal state accordingly
-                    for test in seen + remaining:
+                    for test in seen:
                         test(tail[0], namespaces, ctxt, updateonly=True)
 
                     break
